@@ -190,6 +190,11 @@ def gen_delims(rng, used):
         for k in ("ts", "te", "os", "oe", "cs", "ce"):
             n = rng.weighted([(1, 2), (2, 6), (3, 2), (4, 1)])
             d[k] = "".join(rng.choice(alpha) for _ in range(n))
+        # The liquid tag derives its line-comment marker from comment_start_string by dropping '{'
+        # characters; WHICH '{' it drops is an undocumented convention, so custom comment starts never
+        # contain '{' here (every convention then yields the same marker and the rewriting is unambiguous)
+        if "{" in d["cs"]:
+            continue
         if delims_ok(list(d.values())):
             return d
     return None
@@ -271,8 +276,13 @@ class C11:
             return _plain_raw(t)
         partials = {nm: tree(rng.randint(2, 5), []) for nm in pnames}
         trees = [tree(rng.randint(4, 16), pnames) for _ in range(rng.randint(1, 2))]
-        if rng.chance(0.5):
+        if rng.chance(0.75):
             trees[0] = trees[0] + [["out", "x | mark", ""], ["tag", "marktag", "", ""], ["out", "s | upcase", ""]]
+        if rng.chance(0.4):
+            # a {% liquid %} tag with a line comment: its marker follows comment_start_string
+            t = rng.randrange(len(trees))
+            trees[t] = trees[t] + [["liquid", [["tag", "#", "note", ""], ["tag", "echo", "x", ""], ["tag", "#", "", ""],
+                                               ["tag", "echo", "'z'", ""]]]]
         used = used_chars(trees + list(partials.values()))
         specs = []
         delim_sets = []
@@ -308,7 +318,7 @@ class C11:
             if rng.chance(0.25):
                 recipe["template_comments"] = not recipe["template_comments"]
             specs.append({"label": "E%d" % i, "recipe": recipe, "delims": rng.randrange(len(delim_sets)),
-                          "custom": {"filter": rng.chance(0.5), "tag": rng.chance(0.4)}, "partials": partials})
+                          "custom": {"filter": rng.chance(0.6), "tag": rng.chance(0.6)}, "partials": partials})
         datas = [G.gen_data(rng) for _ in range(rng.randint(1, 2))]
         ops = []
         uid = 0
